@@ -438,7 +438,15 @@ class SpecLib:
         raise Unsupported("with-exit %r" % (cm,))
 
     def make_super(self, ex):
-        raise Unsupported("super()")
+        """super(): only the object-level fall-backs are modelled (__setattr__ = raw store,
+        __getattribute__ = raw lookup, __init__ = no-op)"""
+        fr = ex.frame()
+        selfv = None
+        if fr.func is not None and fr.func.node is not None and fr.func.node.args.args:
+            selfv = fr.lookup(fr.func.node.args.args[0].arg)
+        if not isinstance(selfv, VObj):
+            raise Unsupported("super() outside a method of a modelled object")
+        return VObj("super", {"obj": selfv}, "super")
 
     def call_generator(self, ex, f, args, kwargs):
         raise Unsupported("call of generator %s (needs a contract)" % f.name)
@@ -681,7 +689,7 @@ class SpecLib:
         def b_str(ex, a, kw):
             if not a:
                 return const_seq("str", "")
-            v = a[0]
+            v = ex.deopt(a[0]) if not ex.spec_mode else (a[0].val if isinstance(a[0], VOpt) else a[0])
             if isinstance(v, VSeq) and v.kind == "str":
                 return v
             if isinstance(v, VInt) and v.py() is not None:
@@ -814,6 +822,25 @@ class SpecLib:
                 k = k.py()
             return self.re_group(ex, mo, k)
         MD[("Match", "group")] = m_group
+
+        def su_setattr(ex, a, kw):
+            su, name, v = a
+            if not (isinstance(name, VSeq) and name.pyval is not None):
+                raise Unsupported("object.__setattr__ with a symbolic name")
+            ex.setattr(su.fields["obj"], name.pyval, v, raw=True)
+            return NONE
+        MD[("super", "__setattr__")] = su_setattr
+
+        def su_getattribute(ex, a, kw):
+            su, name = a
+            if not (isinstance(name, VSeq) and name.pyval is not None):
+                raise Unsupported("object.__getattribute__ with a symbolic name")
+            v = su.fields["obj"].fields.get(name.pyval)
+            if v is None:
+                ex.raise_(AttributeError)
+            return v
+        MD[("super", "__getattribute__")] = su_getattribute
+        MD[("super", "__init__")] = lambda ex, a, kw: NONE
 
         # ---- BinaryIO model (io.BytesIO / file opened 'rb'): state (data, pos)
 
